@@ -221,7 +221,7 @@ theorem full_redraw_scrolled (hW : WOk W) (S : Screen) (hi : ScreenInv W S) (hx 
   have hcur := surrogate_cur S vis
   obtain ⟨q, enew, hq, hqoff, hqsz, hm, he⟩ := new_recvOk W S.cur.size.rows S.cur.size.cols sb hcg.rows_pos hcg.cols_pos
     hcg.rows_u16 hcg.cols_u16
-  obtain ⟨bytes, q', eb, ep, _, hsh, hmodes, hev⟩ := state_formatted_reproduces (cb := cb) hW hq hqoff hm he
+  obtain ⟨bytes, q', eb, ep, _, hsh, hmodes, hev, _⟩ := state_formatted_reproduces (cb := cb) hW hq hqoff hm he
     (surrogateScreen S vis) hS (by rw [hcur, hqsz]; rfl)
   have hmodesS : C10.inputModes (surrogateScreen S vis) = C10.inputModes S := by
     unfold surrogateScreen Screen.setCur C10.inputModes; split <;> rfl
